@@ -270,6 +270,26 @@ pub fn run(ctx: &mut Ctx) {
         }
     }
 
+    // --- every \\uXXXX escape (all 65,536 code units, both hex cases) in every literal that takes escapes ----
+    {
+        let per = 65536u64 / ctx.nshards.max(1) + 1;
+        let lo = ctx.shard * per;
+        let hi = ((ctx.shard + 1) * per).min(65536);
+        if lo < hi && ctx.begin("unicode-escapes", ctx.shard) {
+            let mut rng = ctx.case_rng("unicode-escapes", ctx.shard);
+            for cu in lo..hi {
+                let esc = if cu % 2 == 0 { format!("\\u{:04x}", cu) } else { format!("\\u{:04X}", cu) };
+                let docs = [format!("\"a{esc}b\""), format!("`a{esc}`"), format!("@r \"{esc}\""), format!("X(\"{esc}{esc}\")"), format!("ver:\"3.0\"\na\n\"{esc}\"\n")];
+                ctx.eval("unicode-escape", 0xE5C0_0000 + cu, true);
+                for d in &docs {
+                    monitor(ctx, Entry::FromStr, d.as_bytes(), "unicode-escape", &mut rng);
+                }
+                let j = format!("{{\"_kind\":\"uri\",\"val\":\"{esc}\"}}");
+                monitor(ctx, Entry::JsonStr, j.as_bytes(), "unicode-escape", &mut rng);
+            }
+        }
+    }
+
     // --- corpus slices: prefixes and mutants ---------------------------------------------------
     let corpus = corpus_slices();
     ctx.note("corpus_slices", json!(corpus.len()));
